@@ -86,13 +86,15 @@ class Run:
                 unlisted.append(v)
         rdir = os.path.join(os.environ.get('PPP_REPORTS', os.path.join(VERIF, 'reports')), self.pid)
         os.makedirs(rdir, exist_ok=True)
-        for v in unlisted:
+        for k, v in enumerate(unlisted):
             h = hashlib.sha1(v['vkey'].encode()).hexdigest()[:16]
             path = os.path.join(rdir, h + '.json')
             with open(path, 'w') as fh:
                 json.dump(v, fh, indent=1, default=str)
             print('VIOLATION property=%s replay=%s' % (self.pid, os.path.relpath(path, VERIF)))
             print('  rule=%s kind=%s entry=%s site=%s' % (v['rule'], v['kind'], v['entry'], v['site']))
+            if k >= 15:
+                continue        # details of further violations are in their replay files
             if v.get('expected') is not None or v.get('found') is not None:
                 print('  expected: %s' % str(v.get('expected'))[:600])
                 print('  found:    %s' % str(v.get('found'))[:600])
